@@ -201,7 +201,20 @@ fn reframe_item(rng: &mut StdRng, b: &[u8], p: usize, out: &mut Vec<u8>) -> Opti
         }
         7 => { out.extend_from_slice(&b[p..p + h.hl]); Some(q) }
         2 | 3 => {
-            if h.info == 31 { out.extend_from_slice(&b[p..p + 1]); loop { if *b.get(q)? == 0xff { out.push(0xff); return Some(q + 1) } q = reframe_item(rng, b, q, out)?; } }
+            if h.info == 31 {
+                // already chunked: the chunks stay definite (a chunk must not be chunked again), only their head widths vary
+                out.extend_from_slice(&b[p..p + 1]);
+                loop {
+                    if *b.get(q)? == 0xff { out.push(0xff); return Some(q + 1) }
+                    let c = read_head(b, q)?;
+                    if c.major != h.major || c.info == 31 { return None }
+                    let e = q + c.hl + c.arg as usize;
+                    let body = b.get(q + c.hl..e)?;
+                    let w = pick_width(rng, c.arg, true);
+                    head(out, c.major, c.arg, w); out.extend_from_slice(body);
+                    q = e;
+                }
+            }
             let e = q + h.arg as usize;
             let body = b.get(q..e)?;
             if rng.gen_range(0..4) == 0 {
